@@ -121,6 +121,7 @@ def diagName : Diag → String
   | .enumTargetMissing => "enumTargetMissing" | .enumMismatch => "enumMismatch" | .enumInvalidTarget => "enumInvalidTarget"
   | .enumTransformerError => "enumTransformerError" | .enumTransformerEmpty => "enumTransformerEmpty"
   | .enumUnderlyingConflict => "enumUnderlyingConflict" | .enumErrorNotAllowed => "enumErrorNotAllowed"
+  | .structMethodSig => "structMethodSig"
   | .unsupported w => "unsupported:" ++ w | .outOfFuel => "outOfFuel"
 
 def roleS : Role → String
